@@ -32,6 +32,7 @@ func checkC08(rep *Report, rng *Rng, tier string) {
 		n = 5000
 	}
 	probeValueIsRootRecord(rep)
+	probeBigRootRecord(rep, "C08")
 	dmodelOn = true
 	rep.Rule = "seeded histories over a file-backed store with 0..many Flush calls, re-opens, pending unflushed changes and runs of 1..8 consecutive FlushRevert calls (also past the first flush); after every step the contents of the store, the collection names, the file length and a fresh Store opened on a copy of the file image are compared with the stack of flushed reference states; a watchdog detects non-termination; memory-only stores must reject FlushRevert; non-trivial = contains at least one revert and 8 ops"
 	HistoryLoop(rep, rng, n, func(r *Rng, i int) (RunCfg, []Op, string) {
@@ -49,6 +50,7 @@ func checkC12(rep *Report, rng *Rng, tier string) {
 		n = 5000
 	}
 	probeNonUTF8Name(rep)
+	probeBigRootRecord(rep, "C12")
 	rep.Rule = "seeded histories interleaving SetCollection (new and existing names), RemoveCollection (present and absent), GetCollection/GetCollectionNames and item mutations through the current handles with flushes and re-opens; names and the full contents of every collection are compared with the reference after every step, and a fresh Store opened on a copy of the file image must show the state at the last Flush; non-trivial = at least 8 ops incl. one collection-management op"
 	HistoryLoop(rep, rng, n, func(r *Rng, i int) (RunCfg, []Op, string) {
 		g := GenCfg{FileBacked: r.Chance(3, 4), NColls: 2 + r.Intn(3), NOps: 30 + r.Intn(60), Structural: true, CollMgmt: true, PrioMode: r.Intn(4), CmpMode: r.Intn(2)}
